@@ -177,6 +177,8 @@ class State:
         self.forms = {}         # canonical frozen form -> (lo, hi, frozenset(excluded))
         self.cong = {}          # atom -> (m, r)
         self.subst = {}         # atom -> poly
+        self.modrep = {}        # atom (result of a wrapping operation) -> (frozen poly P, modulus): atom = P (mod modulus)
+        self.tactics = None     # opt-in non-linear tactics (set by a spec): {'mult': [positive atoms], 'relb': [polys]}
         self.notes = []         # provenance: tuples
         self.choices = []
         self.cptr = 0
@@ -195,6 +197,8 @@ class State:
         s.forms = dict(self.forms)
         s.cong = dict(self.cong)
         s.subst = dict(self.subst)
+        s.modrep = dict(self.modrep)
+        s.tactics = self.tactics
         s.notes = list(self.notes)
         s.choices = list(self.choices)
         s.cptr = 0
@@ -431,6 +435,18 @@ class State:
                 m, r = self.cong_poly(p)
                 if (m > 1 and r % m != 0) or (m == 0 and r != 0):
                     s.discard(0)
+        if len(s) > 1 and self.tactics and self.tactics.get('lp'):
+            llo, lhi = self.lp_range(p, need_lo=1 if -1 in s else None, need_hi=-1 if 1 in s else None)
+            if llo is not None:
+                if llo >= 0:
+                    s.discard(-1)
+                if llo >= 1:
+                    s.discard(0)
+            if lhi is not None:
+                if lhi <= 0:
+                    s.discard(1)
+                if lhi <= -1:
+                    s.discard(0)
         if not s:
             raise Infeasible()
         return frozenset(s)
@@ -545,6 +561,11 @@ class State:
             qk2, q2, G2, c2 = self.decompose(np_)
             # old form value = G2*q2 + c2 in [lo, hi]
             self._constrain_affine(qk2, q2, G2, c2, lo, hi, ex)
+            if self.tactics and self.tactics.get('lp') and len(np_) > 1:
+                # does the re-keyed fact contradict the other facts?
+                llo, lhi = self.lp_range(np_, need_lo=None if hi is None else hi + 1, need_hi=None if lo is None else lo - 1)
+                if (llo is not None and hi is not None and llo > hi) or (lhi is not None and lo is not None and lhi < lo):
+                    raise Infeasible()
         # the replaced atom's own bounds now constrain the replacement
         if ab is not None:
             cc = pis_const(self.norm(rep))
@@ -605,7 +626,126 @@ class State:
         k = self.choose(len(cands))
         idx = cands[k]
         self.assume(p, parts[idx])
+        if self.tactics:
+            self.saturate(p, parts[idx])
         return idx
+
+    # ------------------------------------------------------------ opt-in tactics for products of unknowns (sound inferences, enabled by a spec)
+    def multipliers(self):
+        return [a for a in self.tactics.get('mult', ()) if a not in self.subst and (self.bounds.get(a) or (0, 0))[0] >= 1]
+
+    def saturate(self, p, signs):
+        """consequences of the branch fact sign(p) in signs with the positive multiplier atoms d:
+        (T2) p linear: p >= c  =>  (p - c)*d >= 0   (likewise <=);
+        (T3) p = d*L + R (d occurring to the first power): from d*L <= R' and R' < c*d conclude L < c (c in {0, 2^64}); likewise >=."""
+        p = self.norm(p)
+        if pis_const(p) is not None:
+            return
+        signs = frozenset(signs)
+        lo = 1 if signs <= POS else (0 if signs <= NONNEG else None)
+        hi = -1 if signs <= NEG else (0 if signs <= NONPOS else None)
+        linear = all(len(m) <= 1 for m in p)
+        for d in self.multipliers():
+            dp = {(d,): 1}
+            if linear:
+                if lo is not None:
+                    self.assume(pmul(padd(p, pconst(lo), -1), dp), NONNEG)
+                if hi is not None:
+                    self.assume(pmul(padd(pconst(hi), p, -1), dp), NONNEG)
+                continue
+            Lp, R0 = {}, {}
+            ok = False
+            for m, c in p.items():
+                if d in m:
+                    rest = list(m)
+                    rest.remove(d)
+                    if d in rest:
+                        ok = False
+                        break
+                    Lp[tuple(rest)] = c
+                    ok = True
+                else:
+                    R0[m] = c
+            if not ok or not all(len(m) <= 1 for m in Lp):
+                continue
+            # p = d*Lp + R0
+            for c in (0, DIGIT):
+                if lo is not None:
+                    # d*Lp + R0 >= lo  =>  d*(-Lp) <= R0 - lo;  R0 - lo < c*d  =>  -Lp < c
+                    if self.sign(padd(padd(R0, pconst(lo), -1), pscale(dp, c), -1)) <= NEG:
+                        self.assume(padd(pneg(Lp), pconst(c), -1), NEG)
+                        break
+                if hi is not None:
+                    # d*Lp + R0 <= hi  =>  d*Lp <= hi - R0;  hi - R0 < c*d  =>  Lp < c
+                    if self.sign(padd(padd(pconst(hi), R0, -1), pscale(dp, c), -1)) <= NEG:
+                        self.assume(padd(Lp, pconst(c), -1), NEG)
+                        break
+
+    def lp_range(self, p, need_lo=None, need_hi=None):
+        """(lo, hi) of p over the polytope of the path's facts in monomial space (exact dual simplex, lp.py);
+        need_lo / need_hi: stop as soon as the bound reaches that value.  None = not computed / unbounded."""
+        from . import lp
+        from math import floor, ceil
+        p = self.norm(p)
+        c0 = p.get((), 0)
+        obj = {m: v for m, v in p.items() if m != ()}
+        if not obj:
+            return c0, c0
+        V = set(obj)
+        chosen = {}
+        for _round in range(4):
+            atoms_v = set(a for m in V for a in m)
+            added = False
+            for fkey, (flo, fhi, _ex) in self.forms.items():
+                if fkey in chosen or len(chosen) >= 80:
+                    continue
+                ms = [m for m, _ in fkey]
+                if len(ms) == 1 and len(ms[0]) == 1:
+                    continue        # a bound of one atom: already a variable bound
+                if any(m in V for m in ms) and all(all(a in atoms_v for a in m) or m in V for m in ms if len(m) > 1):
+                    chosen[fkey] = (flo, fhi)
+                    V.update(ms)
+                    added = True
+            if not added:
+                break
+        vb = {}
+        for m in V:
+            mlo, mhi = self.itv_poly({m: 1})
+            if mlo is None or mhi is None:
+                return None, None
+            if len(m) == 1:
+                f = self.forms.get(((m, 1),))
+                if f is not None:
+                    if f[0] is not None:
+                        mlo = max(mlo, f[0])
+                    if f[1] is not None:
+                        mhi = min(mhi, f[1])
+            vb[m] = (mlo, mhi)
+        rows = [(dict(fkey), flo, fhi) for fkey, (flo, fhi) in chosen.items()]
+        lo = hi = None
+        try:
+            if need_lo is not None:
+                r = lp.lp_min(obj, vb, rows, stop_at=need_lo - c0)
+                if r is not None:
+                    lo = ceil(r) + c0
+            if need_hi is not None:
+                r = lp.lp_min({m: -v for m, v in obj.items()}, vb, rows, stop_at=c0 - need_hi)
+                if r is not None:
+                    hi = floor(-r) + c0
+        except lp.Infeasible:
+            raise Infeasible()
+        return lo, hi
+
+    def relational_upper(self, p, limit):
+        """(T4) p < v for one of the spec's candidate bounds v <= limit: records the fact, returns True"""
+        for v in self.tactics.get('relb', ()):
+            vlo, vhi = self.range_of(v)
+            if vhi is None or vhi > limit:
+                continue
+            if self.sign(padd(p, v, -1)) <= NEG:
+                self.assume(padd(p, v, -1), NEG)
+                return True
+        return False
 
     def in_range(self, p, lo, hi):
         """True / False / None (undecided): lo <= p <= hi"""
@@ -614,6 +754,14 @@ class State:
             return True
         if (phi is not None and phi < lo) or (plo is not None and plo > hi):
             return False
+        if self.tactics and self.tactics.get('lp'):
+            llo, lhi = self.lp_range(p, need_lo=lo if (plo is None or plo < lo) else None, need_hi=hi if (phi is None or phi > hi) else None)
+            plo = llo if plo is None else (plo if llo is None else max(plo, llo))
+            phi = lhi if phi is None else (phi if lhi is None else min(phi, lhi))
+            if plo is not None and phi is not None and lo <= plo and phi <= hi:
+                return True
+            if (phi is not None and phi < lo) or (plo is not None and plo > hi):
+                return False
         return None
 
     def assume_in_range(self, p, lo, hi):
@@ -644,6 +792,16 @@ class State:
                     r = True
                 else:
                     self.note(('out-of-range', pfreeze(self.norm(p)), rlo, rhi))
+                    # if only one side of the range can be left, the failing branch knows which
+                    plo, phi = self.range_of(p)
+                    if phi is not None and phi <= rhi:
+                        self.assume(padd(p, pconst(rlo), -1), NEG)
+                        if self.tactics:
+                            self.saturate(padd(p, pconst(rlo), -1), NEG)
+                    elif plo is not None and plo >= rlo:
+                        self.assume(padd(p, pconst(rhi), -1), POS)
+                        if self.tactics:
+                            self.saturate(padd(p, pconst(rhi), -1), POS)
                     r = False
             return r == when_in
         raise Stop('unknown cond %r' % (c,))
@@ -684,6 +842,9 @@ class Opts:
 
 
 # ----------------------------------------------------------------------------- interpreter
+DIGIT = 2**64
+
+
 class Interp:
     # R-PROFILE collectors (set by the C20 spec in its worker processes): executed profile-dependent check sites / failing ones
     PD_EXEC = None
@@ -1393,6 +1554,9 @@ class Interp:
             ety = a.ty
             p = self.arith_poly(st, base, a, b)
             rlo, rhi = INT_RANGES[ety]
+            olo, ohi = self.op_interval(st, base, a, b)
+            if rlo <= olo and ohi <= rhi:
+                self.bound_term(st, p, olo, ohi)
             r = st.in_range(p, rlo, rhi)
             if r is True:
                 val = self.mk(st, ety, p)
@@ -1410,6 +1574,9 @@ class Interp:
         if op in ('Add', 'Sub', 'Mul', 'AddUnchecked', 'SubUnchecked', 'MulUnchecked'):
             base = op.replace('Unchecked', '')
             p = self.arith_poly(st, base, a, b)
+            olo, ohi = self.op_interval(st, base, a, b)
+            if INT_RANGES[rty][0] <= olo and ohi <= INT_RANGES[rty][1]:
+                self.bound_term(st, p, olo, ohi)
             return self.wrap(st, rty, p)
         if op in ('Div', 'Rem'):
             return self.divrem(st, op, a, b, rty)
@@ -1418,6 +1585,24 @@ class Interp:
         if op in ('BitAnd', 'BitOr', 'BitXor'):
             return self.bitop(st, op, a, b, rty)
         raise Stop('binop %s' % op)
+
+    def op_interval(self, st, base, a, b):
+        """interval of a base-operation result from the operands' own intervals (tighter than the term's for products of bounded differences)"""
+        alo, ahi = st.itv(a)
+        blo, bhi = st.itv(b)
+        if base == 'Add':
+            return alo + blo, ahi + bhi
+        if base == 'Sub':
+            return alo - bhi, ahi - blo
+        c = (alo * blo, alo * bhi, ahi * blo, ahi * bhi)
+        return min(c), max(c)
+
+    def bound_term(self, st, p, lo, hi):
+        """record the operand-derived interval of term p as a fact (if it tightens what the term's atoms give)"""
+        plo, phi = st.range_of(p)
+        if plo is None or plo < lo or phi is None or phi > hi:
+            if pis_const(st.norm(p)) is None:
+                st.assume_in_range(p, lo, hi)
 
     def arith_poly(self, st, base, a, b):
         if base == 'Add':
@@ -1496,6 +1681,10 @@ class Interp:
             return pconst(q)
         if cb is not None and A and all(v % cb == 0 for v in A.values()):
             return {m_: v // cb for m_, v in A.items()}       # exact division of the term
+        if st.tactics is not None and cb is None and sb == 1:
+            lsb = plinear_single(B)
+            if lsb is not None and lsb[1] == 1 and lsb[2] == 0 and lsb[0] not in st.tactics['mult']:
+                st.tactics = dict(st.tactics, mult=list(st.tactics['mult']) + [lsb[0]])      # a positive divisor atom
         desc = ('tdiv', pfreeze(A), pfreeze(B))
         known = st.atoms.lookup(desc)
         T = st.atoms.get(desc)
@@ -1517,6 +1706,13 @@ class Interp:
             old = st.bounds.get(T)
             if old is not None:
                 tb = (max(tb[0], old[0]), min(tb[1], old[1]))
+            if cb is None and sa == 1 and sb == 1 and tb[1] >= DIGIT:
+                # relational bound (schoolbook digit step): A < K * B  =>  A / B < K   for K = 2^64 (and 2^64 + 2: the
+                # range of Knuth's quotient-digit estimate, tried only when a spec enabled the non-linear tactics)
+                for K_ in ((DIGIT, DIGIT + 2) if st.tactics else (DIGIT,)):
+                    if tb[1] >= K_ and st.sign(padd(A, pscale(B, K_), -1)) <= NEG:
+                        tb = (tb[0], K_ - 1)
+                        break
             if tb[0] > tb[1]:
                 raise Infeasible()
             if tb[0] == tb[1]:
@@ -1605,7 +1801,15 @@ class Interp:
             raise Stop('shift amount %d' % k)
         if op == 'Shl':
             p = pscale(a.p, 2**k)
-            return self.wrap(st, ty, p, 'shl')
+            rlo, rhi = INT_RANGES[ty]
+            if st.in_range(p, rlo, rhi) is True:
+                return self.mk(st, ty, p)
+            alo, ahi = st.itv(a)
+            if rlo == 0 and alo >= 0 and k > 0:
+                # the high k bits are shifted out: 2^k * (a mod 2^(w-k)) = 2^k*a - 2^w * (a / 2^(w-k))
+                T = self.tdiv_atom(st, st.norm(a.p), pconst(2**(bits - k)))
+                return self.mk(st, ty, padd(p, pscale(T, 2**bits), -1), 0, rhi + 1 - 2**k)
+            return st.fresh(ty, tag='shl')
         # Shr: floor division by 2^k (arithmetic shift)
         alo, ahi = st.itv(a)
         if alo >= 0:
@@ -1663,6 +1867,18 @@ class Interp:
                     if s == 1:
                         return self.mk(st, ty, r.p, 0, mlo)
                     return self.mk(st, ty, padd(r.p, pconst(c)), 0, mlo)
+        if op in ('BitOr', 'BitXor'):
+            # disjoint bits: a = 0 (mod 2^k), 0 <= b < 2^k  =>  a | b = a ^ b = a + b
+            for x, y_ in ((a, b), (b, a)):
+                ylo, yhi = st.itv(y_)
+                xlo, xhi = st.itv(x)
+                if ylo >= 0 and xlo >= 0:
+                    if yhi == 0:
+                        return x
+                    k = yhi.bit_length()
+                    m_, r_ = st.cong_poly(st.norm(x.p))
+                    if (m_ == 0 and r_ % (1 << k) == 0) or (m_ > 0 and m_ % (1 << k) == 0 and r_ % (1 << k) == 0):
+                        return self.mk(st, ty, padd(x.p, y_.p), xlo + ylo, xhi + yhi)
         ta, tb = self.tnum(st, a), self.tnum(st, b)
         if ta is None or tb is None:
             return st.fresh(ty, tag='bits')
@@ -1708,6 +1924,12 @@ class Interp:
         if op == 'PtrMetadata':
             if isinstance(x, SliceVal):
                 return x.len
+            xv = x
+            while isinstance(xv, Ref):
+                tf = self.frame_of(st, xv.frame)
+                xv = self.project(st, tf, tf.L.get(xv.local), xv.proj)
+            if isinstance(xv, Agg) and xv.kind == 'array':
+                return K(len(xv.fields), 'usize')
             raise Stop('PtrMetadata of %r' % (x,))
         raise Stop('unop %s' % op)
 
